@@ -62,6 +62,18 @@ CHECKS['C09'] = dict(
          'interpolation of the Lewis table and the table contents. Numeric output of scipy is not decided.',
     design='4/C09', engine='sa.sx + sa.match + sa.facts')
 
+CHECKS['C10'] = dict(
+    technique='symbolic evaluation of the three relation functions with operands of unknown class (isinstance narrowing, '
+              'class-disjointness reasoning); effect sets compared with specification terms; forbidden-condition '
+              'incompatibility; validate-before-mutate as an effect-ordering rule with setter obligations evaluated on '
+              'the actual argument under the path guards; setter range checks',
+    text='For every path of add_gear_mating / add_worm_gear_mating / add_fixed_joint: accepting paths assign exactly the '
+         'specified links, roles, ratio, efficiency and self-locking criterion; every incompatible pair named by the '
+         'property is rejected; no raise (explicit, raising setter, division by possibly-zero number) can follow a '
+         'modification of either element; ratio > 0 float and efficiency in [0,1] are enforced by every setter and '
+         'nothing else writes those fields.',
+    design='4/C10', engine='sa.sx + sa.match')
+
 NOT_APPLICABLE = {
     'C04': 'limit statement (error = O(dt) as dt -> 0) against an analytic oracle; no sound static argument in reach '
            'bounds a global discretisation error. Its code-shape ingredients (consistent first-order integrator, torque '
